@@ -191,6 +191,13 @@ def run(prog: Program, rep, thorough: bool) -> None:
 
     # ---- R2: fast constructors ---------------------------------------------------------
     fast = {'_new_feet': 'Foot', '_new_fps': 'FPS', '_new_rad': 'Radian', '_new_ft_lb': 'FootPound', '_new_lb': 'Pound'}
+    present = [n for n in fast if n in tc.funcs]
+    # the floor counts the constructors that exist: where they were merged or inlined away the quantities of a row are
+    # still judged - by R1, which reads the magnitude each column ends up with, whatever built it
+    rep.rules['C05.R2'].min_instances = len(present)
+    if len(present) < len(fast):
+        rep.note(f'C05.R2: fast constructors no longer present under their names: {sorted(set(fast) - set(present))}; '
+                 f'the magnitudes they produced are checked by R1 at the row')
     for fname, uname in fast.items():
         if fname not in tc.funcs:
             continue
